@@ -712,7 +712,7 @@ fn custom_point(c: &CustomCase, obs: &mut Obs) -> PropResult {
 
 fn main() {
     let mut h = Harness::new("C01");
-    h.rule("Ordered pairs of the 51-space type matrix (18 core types all-pairs; RGB standards sRGB / linear / Adobe / Rec.709 / Rec.2020 / Display P3 / DCI-P3 / ProPhoto; white points D65, D50, A, E, DCI; cylindrical spaces of four standards; two LMS matrices), f64 and f32, bare and with Alpha. Sources: in-gamut sRGB colours (faces, edges, corners, greys, dark, interior) expressed in the source space through the reference definitions, plus the source's own nominal box when no space on the route is confined to another gamut. Oracles: A->B->A returns the source in A's cartesian embedding (tier E 1e-10 within one family of constants, M 2e-5 across a hard-coded 7-digit matrix pair, S 6e-4 across the Oklab direct/M1 seam; f32 2e-3 after a conditioning filter); direct A->B equals A->C->B for every intermediate C of the matrix (worst tier of the legs); Alpha<A>->Alpha<B> has the colour bitwise equal to A->B and the alpha bitwise unchanged, Alpha<A>->B and A->Alpha<B> likewise; with_alpha / split / without_alpha are exact. Non-trivial = A != B (and C distinct), source chromatic (embedding chroma > 1e-3), alpha not 0 or 1; distinct by hash.");
+    h.rule("Ordered pairs of the 85-space type matrix (18 core types all-pairs; RGB standards sRGB / linear / Adobe / Rec.709 / Rec.2020 / Display P3 / DCI-P3 / ProPhoto; every built-in white point; luma of five standards; cylindrical spaces of four standards with an XYZ hub each; two LMS matrices; three user-defined types converted through #[derive]), f64 and f32, bare and with Alpha. Sources: in-gamut sRGB colours (faces, edges, corners, greys, dark, interior) expressed in the source space through the reference definitions, plus the source's own nominal box when no space on the route is confined to another gamut. Oracles: A->B->A returns the source in A's cartesian embedding (tier E 1e-10 within one family of constants, M 2e-5 across a hard-coded 7-digit matrix pair, S 6e-4 across the Oklab direct/M1 seam; f32 2e-3 after a conditioning filter); direct A->B equals A->C->B for every intermediate C of the matrix (worst tier of the legs); Alpha<A>->Alpha<B> has the colour bitwise equal to A->B and the alpha bitwise unchanged, Alpha<A>->B and A->Alpha<B> likewise; with_alpha / split / without_alpha are exact. Non-trivial = A != B (and C distinct), source chromatic (embedding chroma > 1e-3), alpha not 0 or 1; distinct by hash.");
     h.assume("luma targets and intermediates are excluded (single channel cannot represent the colour); non-finite intermediates are C07's subject and only counted here; pure power-law encodings (Adobe RGB, DCI gamma) are compared in linear light");
     let convs = conversions();
     let n_sp = SPACE_NAMES.len();
